@@ -38,7 +38,9 @@ def cfg_trace(ctx):
     return "SPECIFICATION TraceSpec\nCONSTANTS\n%s\nINVARIANT PrintEnd\nCHECK_DEADLOCK FALSE\n" % consts(ctx, '{"t1", "t2", "t3"}')
 
 
-def scenario(sid, present, crit, event, outcome, verdict):
+def scenario(sid, present, crit, event, outcome, verdict, early=False, lose=None):
+    """early: ok answers are on their way before the MESSAGE call returns; lose = (kind, task): that task's executor/agent is
+    reported lost (Mesos FAILURE event) once the command under test has reached it."""
     tasks = []
     files = {}
     roles = ""
@@ -48,6 +50,8 @@ def scenario(sid, present, crit, event, outcome, verdict):
         files["tasks/%s.yaml" % cls] = cs.task_class(cls)
         roles += cs.role_task(t, cls, critical=crit[t])
         tasks.append({"id": t, "class": cls, "crit": crit[t], "outcome": outcome[t]})
+        if outcome[t] == "ok" and early and event != "DEPLOY":
+            scripts.append({"class": cls, "event": event, "outcome": "ok_early"})
         if outcome[t] != "ok":
             if event == "DEPLOY":
                 scripts.append({"class": cls, "launch": LAUNCH[outcome[t]]})
@@ -66,7 +70,13 @@ def scenario(sid, present, crit, event, outcome, verdict):
             # the START that precedes the STOP under test must not be disturbed by the scripts (event-specific)
             steps.append({"do": "control", "env": "e1", "op": "START_ACTIVITY"})
             model["call"] = "control"
-        steps.append({"do": "control", "env": "e1", "op": OPS[event], "timeout_ms": 115000 if slow else 0})
+        if lose:
+            steps += [{"do": "control", "env": "e1", "op": OPS[event], "timeout_ms": 115000 if slow else 0, "caller": "T"},
+                      {"do": "sleep", "ms": 300},
+                      {"do": "fault", "kind": lose[0], "class": "c02s%d%s" % (sid, lose[1])},
+                      {"do": "await", "caller": "T", "timeout_ms": 118000 if slow else 0}]
+        else:
+            steps.append({"do": "control", "env": "e1", "op": OPS[event], "timeout_ms": 115000 if slow else 0})
     steps += [{"do": "settle", "ms": 40}, {"do": "snapshot"}]
     s = {"id": sid, "family": "C02", "agents": cs.DEFAULT_AGENTS, "files": files, "core": {}, "scripts": scripts, "hooks": {},
          "steps": steps, "model": model}
@@ -107,6 +117,16 @@ def run(ctx):
     for (c1, c2) in ([(True, True), (False, True)] if quick else [(True, True), (False, True), (True, False)]):
         sid += 1
         scenarios.append(scenario(sid, ["t1", "t2"], {"t1": c1, "t2": c2}, "START", {"t1": "silent", "t2": "ok"}, "fail" if c1 else "ok"))
+    # the executor (or agent) of a critical target that has not answered is reported lost while the command is in flight:
+    # the target still "cannot be reached or does not answer" (same 90 s, same isolated processes)
+    for kind in (["EXECUTOR_LOST"] if quick else ["EXECUTOR_LOST", "AGENT_LOST"]):
+        sid += 1
+        scenarios.append(scenario(sid, ["t1", "t2"], {"t1": True, "t2": True}, "START", {"t1": "silent", "t2": "ok"}, "fail", lose=(kind, "t1")))
+    # timing variant: the acknowledgements overtake the return of the send call
+    for ev in ("CONFIGURE", "START", "STOP", "RESET"):
+        for out in ({"t1": "ok", "t2": "ok"}, {"t1": "err_src", "t2": "ok"}):
+            sid += 1
+            scenarios.append(scenario(sid, ["t1", "t2"], {"t1": True, "t2": True}, ev, out, "ok" if out["t1"] == "ok" else "fail", early=True))
     ctx.log("cases from TLC: %d, scenarios: %d" % (len(cases), len(scenarios)))
     by_id = {s["id"]: s for s in scenarios}
     for s in scenarios:
